@@ -293,13 +293,18 @@ def gen_particle(rng, edges, flavour, real_ok=True):
             s.pop(rng.choice(["px", "E", "pz"]))             # an unset attribute: NaN observations
         return s
     y = H.gen_value(rng, edges)
-    pt = rng.choice([0.25, 0.5, 0.75, 1.0, 1.5, 2.0, 3.0, 0.125])
+    pt = rng.choice([0.25, 0.5, 0.75, 1.0, 1.5, 2.0, 3.0, 0.125, 0.0, 0.0])      # 0.0: a particle along the beam axis
     return {"obs": {"y": y, "pt": pt if flavour != "pt" else abs(y), "mt": pt + rng.choice([0.0, 0.25, 1.0]) if flavour != "mt" else abs(y)}}
 
 
 def gen_events(rng, edges, flavour, nev=None):
     nev = nev or rng.choice([1, 1, 2, 2, 3, 3, 4, 5])
     evs = [[gen_particle(rng, edges, flavour) for _ in range(rng.choice([0, 1, 2, 3, 3, 4, 6]))] for _ in range(nev)]
+    if nev > 1 and rng.random() < 0.12:
+        # one event whose particles all have exactly zero pT and zero mT (its mean is 0, it is not an event without a mean)
+        k = rng.randrange(nev)
+        evs[k] = [{"obs": {"y": rng.choice([0.0, 0.125, -0.125, 0.25]), "pt": 0.0, "mt": 0.0}} for _ in range(rng.choice([1, 2, 3]))]
+        return evs
     r = rng.random()
     if r < 0.2:
         evs[0] = []                                            # empty first event
